@@ -162,6 +162,137 @@ def rule_r4(facts, col):
                         "reader is handed whatever the ring held before (stale samples of an earlier lap)", {})
 
 
+def _self_state_writes(body):
+    """blocks with an assignment into a field of *self (carried state)"""
+    out = {}
+    for bb in sorted(body.reachable(0)):
+        for st in body.blocks[bb]["stmts"]:
+            if st["k"] == "assign" and st["dst"]["l"] == 1 and st["dst"]["p"] and st["dst"]["p"][0] == "*":
+                pj = st["dst"]["p"]
+                if len(pj) >= 2 and isinstance(pj[1], dict):
+                    out.setdefault(bb, set()).add(pj[1].get("n"))
+    return out
+
+
+def rule_r5(facts, col):
+    """a sample that has changed the block's carried state is counted as consumed: in a per-sample loop whose consume() count
+    is a counter incremented in the loop, every path from the loop head through a write of self state to a loop exit also
+    passes the increment (otherwise the next work() call processes the same sample again on top of its own effect)"""
+    for body in facts.impl_bodies(BLOCK_TRAIT, "work"):
+        if body.from_derive:
+            continue
+        for cb, ct in body.calls_to(effects.CONSUME):
+            if len(ct["args"]) < 2:
+                continue
+            p = ct["args"][1].get("c") or ct["args"][1].get("m")
+            if p is None or p["p"]:
+                continue
+            cl = p["l"]
+            # follow one copy
+            ds = body.defs().get(cl, [])
+            if len(ds) == 1 and ds[0][2] == "rv" and ds[0][3]["k"] == "use":
+                q = ds[0][3]["a"].get("c") or ds[0][3]["a"].get("m")
+                if q is not None and not q["p"]:
+                    cl = q["l"]
+                    ds = body.defs().get(cl, [])
+            incs = set()
+            for dbb, si, kind, payload in ds:
+                if kind != "rv":
+                    continue
+                rv = payload
+                # `taken = taken + 1` is lowered to a checked add: tmp = AddWithOverflow(taken, 1); taken = move tmp.0
+                e = peel(body.rvalue_expr(rv), through_try=False)
+                if e.k == "bin" and e.op.startswith("Add") and any(peel(x, through_try=False).k in ("local", "multi") and
+                                                                  getattr(peel(x, through_try=False), "local", None) == cl for x in (e.a, e.b)):
+                    incs.add(dbb)
+            if not incs:
+                continue
+            # the loop: SCC containing the increments
+            comp = None
+            for i_ in incs:
+                comp = scc_of(body, i_) or comp
+            if comp is None:
+                continue
+            nexts = [b for b, t in body.calls_to("std::iter::Iterator::next") if b in comp]
+            if not nexts:
+                continue
+            head = nexts[0]
+            writes = {b: f for b, f in _self_state_writes(body).items() if b in comp}
+            key = "%s:consume(counter)" % body.q
+            if not writes:
+                col.ok("C08.R5", key, body.where(cb), "the per-sample loop writes no carried state")
+                continue
+            bad = None
+            exits = {v for u in comp for v in body.succ[u] if v not in comp and body.term(v)["k"] != "unreachable"}
+            for wb, flds in writes.items():
+                if wb in incs:
+                    continue
+                # head -> wb without an increment, and wb -> loop exit without an increment and without starting a new iteration
+                r1 = body.reachable(head, avoid=incs, edge_filter=lambda a_, b_: b_ in comp)
+                if wb not in r1:
+                    continue
+                r2 = body.reachable(wb, avoid=incs | {head})
+                if exits & r2:
+                    bad = (wb, sorted(x for x in flds if x))
+                    break
+            if bad:
+                col.bad("C08.R5", key, body.where(bad[0]),
+                        "a sample can update self.%s and the loop can then be left (output full / break) without that sample being added "
+                        "to the consume() count: the next work() call processes the same sample again on top of its own effect, so the "
+                        "output depends on where the stream buffers happened to fill up" % ",".join(bad[1]), {})
+            else:
+                col.ok("C08.R5", key, body.where(cb), "every sample that touched carried state is counted before the loop can be left")
+
+
+TAKERS = {"std::mem::swap", "std::mem::take", "std::mem::replace"}
+
+
+def rule_r6(facts, col):
+    """a state-machine field moved out of self (mem::take/replace/swap) is stored back before every non-error return: an
+    early return in between silently resets the machine and drops what it had collected"""
+    from ..mir import self_field_path
+    for body in facts.impl_bodies(BLOCK_TRAIT, "work"):
+        a = facts.adts.get(body.self_adt)
+        if not a or a["kind"] != "struct":
+            continue
+        enum_fields = set()
+        for f in a["variants"][0]["fields"]:
+            ty = f["ty"]["s"].split("<")[0]
+            fa = facts.adts.get(ty)
+            if fa and fa["kind"] == "enum":
+                enum_fields.add(f["name"])
+        if not enum_fields:
+            continue
+        for bb, t in body.calls():
+            if (t["f"].get("q") or "") not in TAKERS:
+                continue
+            fld = None
+            for a_ in t["args"]:
+                e = body.operand_expr(a_)
+                if e.k == "ref" and e.mut:
+                    fp = self_field_path(e.a)
+                    if fp and len(fp) == 1 and fp[0] in enum_fields:
+                        fld = fp[0]
+            if not fld:
+                continue
+            key = "%s:%s moved out" % (body.q, fld)
+            stores = set()
+            for b2 in sorted(body.reachable(0)):
+                for st in body.blocks[b2]["stmts"]:
+                    if st["k"] == "assign" and st["dst"]["l"] == 1 and len(st["dst"]["p"]) == 2 and st["dst"]["p"][0] == "*" \
+                            and isinstance(st["dst"]["p"][1], dict) and st["dst"]["p"][1].get("n") == fld:
+                        stores.add(b2)
+            r = body.reachable(body.term(bb).get("t", bb) if body.term(bb).get("t") is not None else bb, avoid=stores)
+            lost = [vb for vb, verdict, e in effects.verdict_defs(body) if verdict not in ("Err",) and vb in r]
+            if lost:
+                col.bad("C08.R6", key, body.where(lost[0]),
+                        "self.%s is moved out at %s and work() can return a non-error verdict without storing a state back: whatever "
+                        "the machine had collected is dropped when that path is taken (e.g. a poll on an empty window), so the result "
+                        "depends on how the input was chunked" % (fld, body.where(bb)), {})
+            else:
+                col.ok("C08.R6", key, body.where(bb), "stored back on every non-error path")
+
+
 def run(ctx):
     facts = ctx.facts("default")
     fam = ctx.facts("family")
@@ -169,6 +300,10 @@ def run(ctx):
     c19.rule_work(facts, ctx, only={"C08.R1"})
     rule_r2(facts, ctx)
     rule_r3(facts, ctx)
+    rule_r5(facts, ctx)
+    rule_r6(facts, ctx)
+    ctx.floor("C08.R5", 1, "RationalResampler's counted consume")
+    ctx.floor("C08.R6", 1, "Il2pDeframer's state swap")
     rule_r4(facts, ctx)
     ctx.floor("C08.R4", 40, "produce sites of the crate's work() bodies")
     ctx.floor("C08.R3", 2, "AuDecode (2 bytes/sample) and FirFilter (decimation)")
